@@ -8,6 +8,7 @@ import (
 	"fmt"
 	"os"
 	"path/filepath"
+	"strings"
 	"sync"
 	"sync/atomic"
 	"testing"
@@ -414,6 +415,154 @@ func genPersistCase(r *rng) pCase {
 	return c
 }
 
+// slowLoadBS takes the snapshot of a Load at once and hands it over only after a pause (a slow disk): other clients get
+// time to arrive and to write in between.
+type slowLoadBS struct {
+	inmem.BackingStore
+	pause time.Duration
+	loads atomic.Int32
+}
+
+func (s *slowLoadBS) Load(ctx context.Context, h inmem.LoadHandler) error {
+	s.loads.Add(1)
+
+	type item struct {
+		typ resource.Type
+		r   resource.Resource
+	}
+
+	var snap []item
+
+	if err := s.BackingStore.Load(ctx, func(typ resource.Type, r resource.Resource) error {
+		snap = append(snap, item{typ, r})
+
+		return nil
+	}); err != nil {
+		return err
+	}
+
+	time.Sleep(s.pause)
+
+	for _, it := range snap {
+		if err := h(it.typ, it.r); err != nil {
+			return err
+		}
+	}
+
+	return nil
+}
+
+func runConcurrentFirstAccess(t *testing.T, path string) (problems []string) {
+	ctx := context.Background()
+	ptr := resource.NewMetadata("n1", "T", "a", resource.VersionUndefined)
+	m := store.ProtobufMarshaler{}
+
+	open := func(pause time.Duration) (state.CoreState, *bolt.BackingStore, *slowLoadBS) {
+		bs, err := bolt.NewBackingStore(func() (*bbolt.DB, error) { return bbolt.Open(path, 0o600, &bbolt.Options{NoSync: true}) }, m)
+		if err != nil {
+			t.Fatal(err)
+		}
+
+		slow := &slowLoadBS{BackingStore: bs.WithNamespace("n1"), pause: pause}
+
+		return inmem.NewStateWithOptions(inmem.WithBackingStore(slow))("n1"), bs, slow
+	}
+
+	// incarnation 1: a committed resource at version 2
+	st, bs, _ := open(0)
+
+	r := newRes("n1", "T", "a", "p0")
+	if err := st.Create(ctx, r); err != nil {
+		t.Fatal(err)
+	}
+
+	r.SetPayload("p1")
+
+	if err := st.Update(ctx, r); err != nil {
+		t.Fatal(err)
+	}
+
+	bs.Close() //nolint:errcheck
+
+	// incarnation 2: three clients; A triggers the load, B arrives while it is in flight, C writes a little later
+	const pause = 60 * time.Millisecond
+
+	st, bs, slow := open(pause)
+	defer bs.Close() //nolint:errcheck
+
+	var (
+		wg         sync.WaitGroup
+		mu         sync.Mutex
+		ackedVer   string
+		ackedSpec  string
+		note       = func(p string) { mu.Lock(); problems = append(problems, p); mu.Unlock() }
+		firstGetOK = func(who string) resource.Resource {
+			got, err := st.Get(ctx, ptr)
+			if err != nil {
+				note(fmt.Sprintf("first-access: client %s's first Get of a resource committed before the restart failed: %v", who, err))
+
+				return nil
+			}
+
+			if got.Metadata().Version().String() != "2" && got.Metadata().Version().String() != "3" {
+				note(fmt.Sprintf("first-access: client %s read version %s of a resource committed at version 2", who, got.Metadata().Version()))
+			}
+
+			return got
+		}
+	)
+
+	wg.Add(3)
+
+	go func() { defer wg.Done(); firstGetOK("A") }()
+
+	go func() {
+		defer wg.Done()
+
+		time.Sleep(pause / 3)
+		firstGetOK("B")
+	}()
+
+	go func() {
+		defer wg.Done()
+
+		time.Sleep(pause + pause/2)
+
+		cur := firstGetOK("C")
+		if cur == nil {
+			return
+		}
+
+		cur.(*Res).SetPayload("p2") //nolint:forcetypeassert
+
+		if err := st.Update(ctx, cur); err != nil {
+			note(fmt.Sprintf("first-access: client C's Update from the version it just read failed: %v", err))
+
+			return
+		}
+
+		mu.Lock()
+		ackedVer, ackedSpec = cur.Metadata().Version().String(), "p2"
+		mu.Unlock()
+	}()
+
+	wg.Wait()
+	time.Sleep(3 * pause) // a late second load, if any, has delivered its snapshot by now
+
+	if n := slow.loads.Load(); n != 1 {
+		problems = append(problems, fmt.Sprintf("load-count: the backing store was loaded %d times by one incarnation whose first load succeeded", n))
+	}
+
+	if ackedVer != "" {
+		got, err := st.Get(ctx, ptr)
+		if err != nil || got.Metadata().Version().String() != ackedVer || payloadOf(got) != ackedSpec {
+			problems = append(problems, fmt.Sprintf("memory-diverges: the acknowledged write (version %s, %q) is not what the state returns afterwards (%v, err %v): memory no longer equals the durable copy", ackedVer, ackedSpec, got, err))
+		}
+	}
+
+	return problems
+}
+
 func TestC10(t *testing.T) {
 	dir := outDir(t)
 	rep := newReport("C10", "the real bbolt-backed namespaced inmem state with six marshaler stackings (protobuf; +zstd below/above the threshold; +AES-GCM; both orders) behind a fault-injecting BackingStore: random CRUD histories over two namespaces and two kinds with "+
@@ -494,6 +643,22 @@ func TestC10(t *testing.T) {
 	}
 
 	flush()
+
+	// ---- concurrent first accesses after a reopen (real time, free-running goroutines): the lazy load happens once,
+	// nobody operates on a half-loaded state, and a write acknowledged while another client is still "loading" is not
+	// rolled back in memory ----
+	if os.Getenv("VERIF_REPLAY") == "" {
+		for it := range tier(4, 40) {
+			for _, p := range runConcurrentFirstAccess(t, filepath.Join(dir, fmt.Sprintf("firstaccess-%d.bolt", it))) {
+				rep.violateKey(len(cases)+it, strings.SplitN(p, ":", 2)[0], p, map[string]any{"concurrent_first_access": it, "problem": p})
+			}
+
+			rep.count(fmt.Sprint("firstaccess", it), true)
+			rep.hit("concurrent_first_access")
+		}
+
+		rep.Assumptions = append(rep.Assumptions, "interleavings of several clients' first accesses after a reopen are sampled with a slow Load (free-running goroutines), not enumerated")
+	}
 
 	rep.Assumptions = append(rep.Assumptions, "a bbolt Update transaction is atomic and durable once it returns (NoSync is set: fsync behaviour is not exercised); process death is simulated by abandoning the state object and reopening the database file")
 	rep.write(t, dir)
